@@ -2,6 +2,8 @@
 
 package raft
 
+import "time"
+
 // Read-only accessors for the cluster check (C07); added to package internal/raft by the check-time overlay only.
 
 // VerifAppliedIndex is the index of the last log entry this node's state machine has applied.
@@ -38,4 +40,19 @@ func (r *Raft) VerifNumPeers() int {
 		return 0
 	}
 	return len(f.Configuration().Servers)
+}
+
+// VerifSnapshotTo takes a raft snapshot of this node exactly as raft does it (FSM.Snapshot, Persist into the node's
+// snapshot store) and restores it on dst through raft's own Restore (FSM.Restore on dst).
+func (r *Raft) VerifSnapshotTo(dst *Raft) error {
+	f := r.raft.Snapshot()
+	if err := f.Error(); err != nil {
+		return err
+	}
+	meta, rc, err := f.Open()
+	if err != nil {
+		return err
+	}
+	defer rc.Close()
+	return dst.raft.Restore(meta, rc, 10*time.Second)
 }
